@@ -16,6 +16,7 @@
 (* selector are explained by some J per key.                               *)
 (***************************************************************************)
 EXTENDS Integers, Sequences, FiniteSets, TLC
+LOCAL SX == INSTANCE SequencesExt
 
 CONSTANT N                 \* server names 1..N
 
@@ -26,9 +27,7 @@ Range(s) == {s[i] : i \in 1..Len(s)}
 Max(S)   == CHOOSE x \in S : \A y \in S : y <= x
 
 (* SetServers: the list is stored in natural sort order *)
-RECURSIVE NatSortSet(_)
-NatSortSet(S) == IF S = {} THEN <<>> ELSE LET m == Max(S) IN Append(NatSortSet(S \ {m}), m)
-NatSort(s) == NatSortSet(Range(s))
+NatSort(s) == SX!SetToSortSeq(Range(s), LAMBDA x, y : x < y)
 
 (* jumpHash(key, n) for a key with jump destinations J *)
 Bucket(J, n) == Max({j \in J : j < n})
